@@ -2,6 +2,7 @@
 import json
 import os
 import re
+import threading
 import time
 from vf import Inconclusive, parallel, require_clean, validate_traces, vfj_lines
 
@@ -17,19 +18,63 @@ CLAIM = {
             "DurParse(DurText(n)) = n. TLC enumerates instants within seconds of every local month/quarter/year, ISO-week-year and DST "
             "boundary x zones x formats/attributes/buckets with the expected text, the real expression compiler evaluates each call; "
             "seeded random instants, the nested round trip {time {timeformat t F Z} F Z}, corrupted inputs and durations are recorded "
-            "from the real code and every record is validated by TLC against TimeCal.Expect.",
+            "from the real code and every record is validated by TLC against TimeCal.Expect. "
+            "HISTORIES (TimeCalHist.tla): rare compiles an expression once and evaluates it for every match; Step(e, live, x) says what the "
+            "i-th evaluation of ONE compiled expression returns: every helper is a function of its arguments only (the answer of a freshly "
+            "compiled expression), except `time`/`buckettime` with the format omitted or 'cache', which carry exactly the documented state - "
+            "the first date seen fixes the layout for ever (later texts of another shape are unparseable: the error marker); 'auto' detects "
+            "each time. TLC checks on every history up to length 3 over adversarial pools (to the second around local midnights that start a "
+            "year/quarter/ISO-year/week - same UTC day on both sides -, around the nearest UTC midnight - same local day on both sides -, "
+            "around both DST changes, a week/52 weeks/a year apart; texts of all shapes, garbage, empty) the laws ArgsOnly, DayFn (timeattr "
+            "depends on the local day only), FirstSeen, Homogeneous, with controls: a memo of the last timeattr answer keyed by the local day "
+            "satisfies them, keyed by the UTC day it satisfies them in zone UTC and TLC finds a violating history otherwise, a timeformat memo "
+            "keyed by the hour and a 'cache' that detects again are rejected. B1: TLC generates, per expression and pool, the history in which "
+            "every ordered pair of pool inputs is evaluated back to back (K*K+1 evaluations) with the expected answers; the driver replays it on "
+            "ONE compiled expression - optimised and unoptimised, sequentially and from 4 goroutines. B2: one compiled expression per stream is "
+            "fed random hourly (and finer/coarser, partly out-of-order) streams across boundaries in all 10 zones, printed texts, and texts of "
+            "changing shape; TLC replays Step over each recorded history.",
     "note": "Bounded: instants 1970-2100 whole seconds; quick tier subsamples years/zones by VERIF_SEED (thorough: every year). The host tz "
             "database is trusted outside the modelled zones; zone abbreviations of the modelled zones are taken as printed by tzdata (EST/EDT, "
             "CET/CEST, AEST/AEDT, IST, +14 ..). ParseM is strict (widths and spellings Format prints); a text the strict parser rejects is "
             "demanded to give <PARSE-ERROR> only for the generated classes (one character replaced, truncated, extended, impossible date or "
             "clock fields). Local times repeated or skipped by a DST change, two-digit years outside 1969-2068, sub-second or decimal "
-            "durations and 'auto'/'cache' detection on anything but RFC3339 text are outside the domain. Trusted: TLC, the Go runtime's time "
+            "durations are outside the domain. Format detection ('auto', 'cache', omitted) is demanded for five unmistakable shapes only (RFC3339 with Z / with "
+            "offset, 2006-01-02 15:04:05 with and without -0700, RFC1123Z), for digit-free garbage and the empty text; after a first text outside these "
+            "the remembered format is unknown and nothing is demanded; a Z text after an offset text (and vice versa) under 'cache' is left open. "
+            "Histories: pools of at most 9 inputs, every ordered pair consecutive (longer-range interference only through the random streams); the "
+            "concurrent replay (4 goroutines) can only observe interference that actually occurs in the run. Trusted: TLC, the Go runtime's time "
             "package is NOT trusted inside the modelled zones (the expected text is computed by TLC).",
     "technique": "TLA+ functional specification model-checked with TLC (calendar, DST and round-trip laws) + model-generated boundary vectors "
-                 "replayed on the real code + TLC validation of recorded evaluations",
+                 "replayed on the real code + TLC validation of recorded evaluations; state machine over evaluation histories of one compiled "
+                 "expression with negative controls, TLC-generated all-pairs histories replayed on one compiled expression (sequential and "
+                 "concurrent), TLC validation of recorded random streams",
 }
 
 os.environ.setdefault("JAVA_TOOL_OPTIONS", "-XX:ParallelGCThreads=2")
+
+
+class _Slots:
+    """at most `n` TLC workers at a time, whatever the number of jobs submitted"""
+
+    def __init__(self, n):
+        self.free = n
+        self.cv = threading.Condition()
+
+    def take(self, k):
+        slots = self
+
+        class _Ctx:
+            def __enter__(self):
+                with slots.cv:
+                    while slots.free < k:
+                        slots.cv.wait()
+                    slots.free -= k
+
+            def __exit__(self, *a):
+                with slots.cv:
+                    slots.free += k
+                    slots.cv.notify_all()
+        return _Ctx()
 
 
 def _sig(rec):
@@ -70,15 +115,22 @@ def _check(run):
         "duration: (digits unit)+ with units h, m, s, optional sign, at most 10^9 s; decimal fractions and ns/us/ms units are outside the domain",
         "zone abbreviations (MST field) of the modelled zones are those of the IANA database; the tz database itself is trusted for every other zone",
         "bucket / attribute / format names are used in their documented spelling (case variants are outside the domain)",
+        "format detection ('auto', 'cache', format omitted): demanded for the shapes rfc3339 (Z / +hh:mm), 'YYYY-MM-DD hh:mm:ss' with and without "
+        "-hhmm, RFC1123Z, for texts made of x # ? only and for the empty text; 'the first seen date determines the format' is read as: a later "
+        "text of a different one of these shapes yields the error marker; Z after +hh:mm (and vice versa) is left open",
+        "a compiled expression may be evaluated by several goroutines at once (rare's extractor workers share it): helpers that remember "
+        "nothing must answer as a fresh expression from every goroutine",
     ]
     run.build_harness()
     seed = run.seed
+    slots = _Slots(8)
 
     # ---- B3: the calendar / DST / round-trip / duration laws on the model
     def b3():
         cfg = "INIT Init\nNEXT Next\nCONSTANTS Thorough = %s\nINVARIANTS LawOK\nCHECK_DEADLOCK FALSE\n" % ("FALSE" if quick else "TRUE")
-        r = run.tlc("TimeCal_MC", cfg, workers=3 if quick else 4, timeout=3000, xmx="4g",
-                    label="TimeCal_MC laws Thorough=%s" % (not quick))
+        with slots.take(3 if quick else 4):
+            r = run.tlc("TimeCal_MC", cfg, workers=3 if quick else 4, timeout=3000, xmx="4g",
+                        label="TimeCal_MC laws Thorough=%s" % (not quick))
         require_clean(run, r, "TimeCal_MC (laws)")
         if r.distinct < 80000:
             raise Inconclusive("law check explored only %d cases" % r.distinct)
@@ -92,8 +144,9 @@ def _check(run):
         time.sleep(0.3 * part)
         cfg = ("INIT Init\nNEXT Next\nCONSTANTS Thorough = %s\n Seed = %d\n Part = %d\n NParts = %d\nINVARIANTS Dump\nCHECK_DEADLOCK FALSE\n"
                % ("FALSE" if quick else "TRUE", seed, part, nparts))
-        r = run.tlc("TimeCal_Gen", cfg, workers=3 if quick else 2, timeout=3000, xmx="4g",
-                    label="TimeCal_Gen part %d/%d Thorough=%s" % (part, nparts, not quick))
+        with slots.take(3 if quick else 2):
+            r = run.tlc("TimeCal_Gen", cfg, workers=3 if quick else 2, timeout=3000, xmx="4g",
+                        label="TimeCal_Gen part %d/%d Thorough=%s" % (part, nparts, not quick))
         if r.violated or r.errors or not r.finished:
             raise Inconclusive("generator failed: %s" % r.out[-2000:])
         vec_path = os.path.join(run.scratch, "c18-vectors-%d.ndjson" % part)
@@ -138,16 +191,118 @@ def _check(run):
 
         def val(i, p):
             time.sleep(0.4 * i + 0.15)   # run.tlc numbers its working directories without a lock
-            return validate_traces(run, "TimeCal_Trace", p, label="TimeCal_Trace chunk %d" % i, timeout=3000, xmx="3g")
+            with slots.take(1):
+                return validate_traces(run, "TimeCal_Trace", p, label="TimeCal_Trace chunk %d" % i, timeout=3000, xmx="3g")
 
         return b2_lines, chunks, parallel([lambda i=i, p=p: val(i, p) for i, p, _ in chunks], k)
 
-    if quick:
-        _, parts, (b2_lines, chunks, results) = parallel([b3, lambda: [b1_part(0)], b2], 3)
-    else:
-        # at most 8 TLC workers at a time: the traces first (8 x 1), then the laws (4) next to the generator parts (2 x 2)
-        b2_lines, chunks, results = b2()
-        _, parts = parallel([b3, lambda: parallel([lambda p=p: b1_part(p) for p in range(nparts)], 2)], 2)
+    # ---- histories of ONE compiled expression (TimeCalHist*): B3 laws + controls, B1 generated histories, B2 random streams
+    def h_b3():
+        def mc(memo, zonesel, workers, label, small=quick):
+            cfg = ("INIT Init\nNEXT Next\nCONSTANTS Thorough = %s\n Memo = \"%s\"\n ZoneSel = \"%s\"\nINVARIANTS Law\nCHECK_DEADLOCK FALSE\n"
+                   % ("FALSE" if small else "TRUE", memo, zonesel))
+            with slots.take(workers):
+                return run.tlc("TimeCalHist_MC", cfg, workers=workers, timeout=3000, xmx="4g", label=label)
+        def main():
+            r = mc("localday", "all", 2 if quick else 4, "TimeCalHist_MC Law, sound memo (local day)")
+            require_clean(run, r, "TimeCalHist_MC (history laws, memo keyed by the local day)")
+            if r.distinct < (15000 if quick else 300000):
+                raise Inconclusive("history law check explored only %d states" % r.distinct)
+            if not quick:
+                r0 = mc("none", "all", 2, "TimeCalHist_MC Law, the specification itself (quick bounds)", small=True)
+                require_clean(run, r0, "TimeCalHist_MC (history laws)")
+            return r
+
+        # controls: the law must reject unsound memos and accept the UTC-day memo where it is exact
+        def controls():
+            for memo, zs, must_fail in (("utcday", "all", True), ("utcday", "utc", False), ("hour", "all", True), ("relearn", "all", True)):
+                rc = mc(memo, zs, 1, "TimeCalHist_MC control Memo=%s zones=%s (%s)" % (memo, zs, "must violate Law" if must_fail else "must hold"),
+                        small=True)
+                other = [e for e in rc.errors if "Invariant Law is violated" not in e and "The behavior up to this point" not in e]
+                if other or (must_fail and rc.violated != ["Law"]) or (not must_fail and (rc.violated or not rc.finished)):
+                    raise Inconclusive("history law control Memo=%s zones=%s: expected %s, TLC says violated=%s errors=%s" % (
+                        memo, zs, "a violation" if must_fail else "no violation", rc.violated, rc.errors[:2]))
+
+        r, _ = parallel([main, controls], 2)
+        run.cov["history_law_controls"] = ("memo keyed by local day: Law holds; memo keyed by UTC day: Law holds for zone UTC and is violated "
+                                           "otherwise; memo keyed by UTC hour (timeformat): violated; cache re-detecting after a failure: violated")
+        return r
+
+    h_nparts = 1 if quick else 4
+    hrep = {"histories": 0, "evaluations": 0, "concurrent": 0, "demanded": 0, "stateful": 0, "mism": [], "counts": {}, "samples": [],
+            "per_group": {}, "per_func": {}}
+
+    def h_b1(part):
+        time.sleep(0.35 * part + 0.1)
+        cfg = ("INIT Init\nNEXT Next\nCONSTANTS Thorough = %s\n Seed = %d\n Part = %d\n NParts = %d\nINVARIANTS Dump\nCHECK_DEADLOCK FALSE\n"
+               % ("FALSE" if quick else "TRUE", seed, part, h_nparts))
+        with slots.take(3 if quick else 2):
+            r = run.tlc("TimeCalHist_Gen", cfg, workers=3 if quick else 2, timeout=3000, xmx="4g",
+                        label="TimeCalHist_Gen part %d/%d Thorough=%s" % (part, h_nparts, not quick))
+        if r.violated or r.errors or not r.finished:
+            raise Inconclusive("history generator failed: %s" % r.out[-2000:])
+        hp = os.path.join(run.scratch, "c18-hist-%d.ndjson" % part)
+        rp = os.path.join(run.scratch, "c18-hreplay-%d.json" % part)
+        n = 0
+        with open(hp, "w") as f:
+            for v in vfj_lines(r.out):
+                f.write(json.dumps(v, separators=(",", ":")) + "\n")
+                n += 1
+        r.out = r.out[-4000:]
+        if n < (600 if quick else 3000):
+            raise Inconclusive("history generator produced only %d histories" % n)
+        run.drv(["hreplay", "-in", hp, "-out", rp, "-rounds", 40 if quick else 12])
+        res = json.load(open(rp))
+        os.remove(hp)
+        if res["histories_not_covering_all_pairs"]:
+            raise Inconclusive("%d generated histories do not evaluate every ordered pair of their pool" % res["histories_not_covering_all_pairs"])
+        return res
+
+    hs_trace = os.path.join(run.scratch, "c18-streams.ndjson")
+
+    def h_b2():
+        run.drv(["stream", "-out", hs_trace, "-n", 110 if quick else 2400])
+        s_lines = open(hs_trace).read().splitlines()
+        k = 2 if quick else 8
+        # chunks end at history boundaries: the trace spec resets the remembered format when a new history begins
+        bounds, per, last = [0], (len(s_lines) + k - 1) // k, None
+        for idx, ln in enumerate(s_lines):
+            h = ln[:ln.index(",")]
+            if h != last and idx - bounds[-1] >= per:
+                bounds.append(idx)
+            last = h
+        bounds.append(len(s_lines))
+        hchunks = []
+        for i in range(len(bounds) - 1):
+            part = list(s_lines[bounds[i]:bounds[i + 1]])
+            real = len(part)
+            # canary: a deliberately corrupted copy of some histories' last answer, as a history of its own
+            for ln in part[:real:97]:
+                rec = json.loads(ln)
+                rec["got"] = rec["got"] + [48]
+                rec["h"] = -rec["h"]
+                rec["canary"] = True
+                part.append(json.dumps(rec, separators=(",", ":")))
+            p = os.path.join(run.scratch, "c18-hchunk-%d.ndjson" % i)
+            with open(p, "w") as f:
+                f.write("\n".join(part) + "\n")
+            hchunks.append((i, p, part))
+
+        def val(i, p):
+            time.sleep(0.4 * i + 0.25)
+            with slots.take(1):
+                return validate_traces(run, "TimeCalHist_Trace", p, label="TimeCalHist_Trace chunk %d" % i, timeout=3000, xmx="3g")
+
+        return s_lines, hchunks, parallel([lambda i=i, p=p: val(i, p) for i, p, _ in hchunks], k)
+
+    # every job is submitted at once; `slots` keeps the number of TLC workers at 8
+    (_, parts, (b2_lines, chunks, results), _, hparts, (hs_lines, hchunks, hresults)) = parallel([
+        b3,
+        lambda: parallel([lambda p=p: b1_part(p) for p in range(nparts)], 2),
+        b2,
+        h_b3,
+        lambda: parallel([lambda p=p: h_b1(p) for p in range(h_nparts)], 2),
+        h_b2], 6)
 
     for res in parts:
         replay["lines"] += res["lines"]
@@ -207,6 +362,81 @@ def _check(run):
         run.sample({"b2_record": json.loads(ln)})
     if nontrivial * 2 < consumed:
         raise Inconclusive("only %d of %d recorded evaluations are inside the specified domain" % (nontrivial, consumed))
+    # ---- histories: B1
+    for res in hparts:
+        hrep["histories"] += res["histories"]
+        hrep["evaluations"] += res["evaluations"]
+        hrep["concurrent"] += res["concurrent_evaluations"]
+        hrep["demanded"] += res["demanded"]
+        hrep["stateful"] += res["stateful_histories"]
+        for k_, v in res["per_group"].items():
+            hrep["per_group"][k_] = hrep["per_group"].get(k_, 0) + v
+        for k_, v in res["per_func"].items():
+            hrep["per_func"][k_] = hrep["per_func"].get(k_, 0) + v
+        for k_, v in res["mismatch_counts"].items():
+            hrep["counts"][k_] = hrep["counts"].get(k_, 0) + v
+        hrep["mism"] += res["mismatches"] or []
+        hrep["samples"] += res["samples"] or []
+    if hrep["evaluations"] < (40000 if quick else 600000) or hrep["demanded"] * 2 < hrep["evaluations"]:
+        raise Inconclusive("only %d evaluations (%d demanded) of generated histories were replayed" % (hrep["evaluations"], hrep["demanded"]))
+    run.cov["b1_histories"] = hrep["histories"]
+    run.cov["b1_histories_per_group"] = hrep["per_group"]
+    run.cov["b1_histories_per_function"] = hrep["per_func"]
+    run.cov["b1_histories_with_format_memory"] = hrep["stateful"]
+    run.cov["b1_history_evaluations_sequential"] = hrep["evaluations"]
+    run.cov["b1_history_evaluations_concurrent"] = hrep["concurrent"]
+    run.cov["traces_validated_against_impl"] += hrep["histories"]
+    run.cov["evaluations"] += hrep["evaluations"] + hrep["concurrent"]
+    run.cov["distinct_nontrivial"] += hrep["histories"]
+    for s_ in hrep["samples"][:2]:
+        run.sample({"b1_history": s_})
+    for m in hrep["mism"]:
+        run.violation("b1:hist:" + m["sig"],
+                      "one compiled %s (optimise=%s, %s replay, group %s): evaluation %d on {0} = %r%s answers %r%s%s; TimeCalHist.tla (TLC) expects %r; "
+                      "a freshly compiled expression answers %r (%d such evaluations disagree)" % (
+                          m["template"], m["opt"], m["mode"], m["grp"], m["pos"], m["input"],
+                          (" right after {0} = %r" % m["before"]) if m["mode"] == "sequential" and m["pos"] > 1 else "",
+                          m["got"], " (compile error)" if m["cerr"] else "", " PANIC " + m["panic"] if m["panic"] else "",
+                          m["expect"], m["fresh"], hrep["counts"].get(m["sig"], 1)), m)
+
+    # ---- histories: B2
+    hconsumed = hnontrivial = hcanary = hcanary_rejected = 0
+    for (i, p, part), (r, _) in zip(hchunks, hresults):
+        hcanary += sum(1 for ln in part if '"canary":true' in ln)
+        if r["consumed"] != len(part) or not r["done"]:
+            raise Inconclusive("history trace chunk %d: consumed %d of %d records" % (i, r["consumed"], len(part)))
+        hconsumed += r["consumed"]
+        hnontrivial += r["nontrivial"]
+        for bad in r["bad"]:
+            rec = json.loads(part[bad["l"] - 1])
+            if rec.get("canary"):
+                hcanary_rejected += 1
+                continue
+            hist = [_txt(json.loads(ln)["x"]) for ln in part if ln.startswith('{"h":%d,' % rec["h"])][:rec["i"]]
+            run.violation("b2:hist:" + _sig(rec),
+                          "history %d of one compiled %s(fmt=%r, zone=%r, b=%r, %d arguments)%s: evaluation %d on %r answers %r%s%s, which "
+                          "TimeCalHist.Step rejects after the inputs %r" % (
+                              rec["h"], rec["f"], rec["fmt"], rec["z"], rec["b"], rec["n"],
+                              " evaluated from 4 goroutines" if rec["m"] == "c" else "", rec["i"], _txt(rec["x"]), _txt(rec["got"]),
+                              " (compile error)" if rec["cerr"] else "", " PANIC" if rec["panic"] else "", hist[-4:-1]),
+                          {"record": rec, "history": hist})
+    if hcanary_rejected * 5 < hcanary * 3:
+        raise Inconclusive("history trace validation rejected only %d of %d deliberately corrupted records" % (hcanary_rejected, hcanary))
+    hconsumed -= hcanary
+    nstreams = len(set(ln[:ln.index(",")] for ln in hs_lines))
+    run.cov["b2_history_corrupted_records_rejected"] = "%d of %d" % (hcanary_rejected, hcanary)
+    run.cov["b2_histories"] = nstreams
+    run.cov["b2_history_records"] = hconsumed
+    run.cov["b2_history_records_inside_domain"] = hnontrivial - hcanary_rejected
+    run.cov["b2_history_zones"] = len(set(json.loads(ln)["z"] for ln in hs_lines[::7]))
+    run.cov["traces_validated_against_impl"] += nstreams
+    run.cov["evaluations"] += hconsumed
+    if hs_lines:
+        run.sample({"b2_history_record": json.loads(hs_lines[len(hs_lines) // 2])})
+    if hnontrivial * 2 < hconsumed:
+        raise Inconclusive("only %d of %d recorded history evaluations are inside the specified domain" % (hnontrivial, hconsumed))
     run.cov["rule"] = ("B3: every case of every law in TimeCal_MC; B1: every generated call with a demanded result (distinct = distinct "
                        "(function, format, bucket/attribute, zone, input) tuples); B2: one record per evaluation, non-trivial = the "
-                       "specification demands an exact text")
+                       "specification demands an exact text; histories: one B1 history = every ordered pair of a pool of K adversarial inputs "
+                       "evaluated back to back on one compiled expression (K*K+1 evaluations, x2 compilers, + 4 goroutines), one B2 history = "
+                       "one compiled expression fed a random stream of 40-90 inputs")
